@@ -71,7 +71,12 @@ def real_tokens(text):
                         if isinstance(st, ast.While):
                             break
                         pre.append(st)
-                    mod = ast.Module(body=pre, type_ignores=[])
+                    # the statements before the loop as a function of (cls, text) returning (buffer, stack); a `return` among them (an early exit
+                    # before tokenizing) returns whatever it returns
+                    ret = ast.parse('return ("TOKENIZED", buffer, stack)').body[0]
+                    f = ast.FunctionDef(name='__parse_init', args=ast.arguments(posonlyargs=[], args=[ast.arg(arg='cls'), ast.arg(arg='text')], kwonlyargs=[], kw_defaults=[], defaults=[]),
+                                        body=pre + [ret], decorator_list=[], returns=None, type_comment=None, type_params=[])
+                    mod = ast.fix_missing_locations(ast.Module(body=[f], type_ignores=[]))
                     code = compile(mod, 'cat.py:Category.parse[init]', 'exec')
                     return code
     raise RuntimeError('Category.parse init not found')
@@ -82,10 +87,11 @@ _INIT = real_tokens('')
 
 def run_init(text):
     env = dict(vars(catmod))
-    env['text'] = text
-    env['cls'] = Category
     exec(_INIT, env)
-    return env['buffer'], env['stack']
+    r = env['__parse_init'](Category, text)
+    if isinstance(r, tuple) and len(r) == 3 and r[0] == 'TOKENIZED':
+        return r[1], r[2]
+    return ['<Category.parse returned %r before tokenizing>' % (r,)], None
 
 
 # --- alphabets
